@@ -1,5 +1,138 @@
+(* C19 — `tt convert` equals the library pipeline, honours options, is deterministic.
+
+   M = Model/Cli.v `plan : argv x --config x --config_file -> OError exn | OHelp | OPlan reader+cfg lang [filter+cfg] writer+cfg`
+   (transcription of tt.py, config.py, every */config.py decoder, lcd.py's decoders, the filter registry),
+   S = Spec/CliSpec.v (property text + README: type_ok, effective, documented, spec_known_filter).
+   What is proved here, for ALL command lines and ALL JSON values, is the plan-level half of the property:
+   type inference, configuration precedence, filter order, document_lang, no output action on any error, and the
+   per-key acceptance table.  Byte equality of the written file with the library pipeline run on this plan, and
+   determinism / history independence of the real process, are established by differential execution in
+   harness/c19.py (M is pure, so they hold of M by construction and are not theorems). *)
 From Coq Require Import String.
-From TT Require Import Base.Prelude Base.CliTypes Gen.CliUnicode Model.Cli Spec.CliSpec Proofs.C19.Tables Proofs.C19.Plan Proofs.C19.Types Proofs.C19.Accept.
+From TT Require Import Base.Prelude Base.CliTypes Gen.CliUnicode Model.Cli Spec.CliSpec Model.CliCases Gen.CliTables
+  Proofs.C19.Tables Proofs.C19.Plan Proofs.C19.Types Proofs.C19.Accept.
+
+(* ---- type inference: --itype/--otype if given, else the extension, case-insensitively, else an error *)
+Theorem C19_types_iff : forall g p t, get_file_type g (splitext p) = Ok t <-> type_ok g p t = true.
+Proof. exact types_iff. Qed.
+Theorem C19_types_unique : forall g p t t', type_ok g p t = true -> type_ok g p t' = true -> t = t'.
+Proof. exact types_unique. Qed.
+Theorem C19_types : forall n o i f p,
+  plan (Subcommand n o) i f = OPlan p ->
+  type_ok (o_itype o) (o_input o) (reader_type (p_reader p)) = true /\
+  type_ok (o_otype o) (o_output o) (writer_type (p_writer p)) = true /\ writable (writer_type (p_writer p)) = true.
+Proof. exact plan_types. Qed.
+Theorem C19_unsupported_types : forall o i f,
+  (forall t, type_ok (o_itype o) (o_input o) t = false) \/
+  (forall t, writable t = true -> type_ok (o_otype o) (o_output o) t = false) ->
+  exists e, plan (Subcommand (T "convert") o) i f = OError e.
+Proof. exact unsupported_types. Qed.
+
+(* ---- a configuration file takes precedence over an inline configuration *)
 Theorem C19_precedence : forall a j1 j2, plan a (IGiven j1) (FGiven j2) = plan a IAbsent (FGiven j2).
 Proof. exact precedence. Qed.
-Print Assumptions C19_precedence.
+Theorem C19_inline_alone : forall a j, plan a (IGiven j) FAbsent = plan a IAbsent (FGiven j).
+Proof. exact inline_alone. Qed.
+(* the one exception (an observation, not a recorded finding): --config is parsed before --config_file is looked
+   at, so malformed inline JSON ends the run even when a file is given *)
+Theorem C19_malformed_inline : forall o f, plan (Subcommand (T "convert") o) IMalformed f = OError EJsonDecode.
+Proof. exact malformed_inline. Qed.
+
+(* ---- the named document filters, in command-line order; unknown names are skipped (logged), not errors *)
+Theorem C19_filters_order : forall n o i f p,
+  plan (Subcommand n o) i f = OPlan p ->
+  List.map filter_name (p_filters p) = List.filter spec_known_filter (o_filters o).
+Proof. exact filters_order. Qed.
+Theorem C19_filters_configured : forall names data fs,
+  apply_filters names data = Ok fs -> fs = List.map (fun _ => FLcd (lcd_of data)) (List.filter known_filter names).
+Proof. exact apply_filters_spec. Qed.
+
+(* ---- document_lang of the configuration in force overrides the document language *)
+Theorem C19_lang_override : forall n o i f p,
+  plan (Subcommand n o) i f = OPlan p ->
+  p_lang p = match general_of (effective i f) with Some (_, _, JStr s) => Some s | _ => None end.
+Proof. exact lang_override. Qed.
+
+(* ---- an Error plan never names an output action; neither does the usage text; unknown sub-commands are errors;
+        an output action implies convert + resolved types + writable output type + readable configuration *)
+Theorem C19_errors_no_output : forall a i f e, plan a i f = OError e -> output_action a (plan a i f) = None.
+Proof. exact error_no_output. Qed.
+Theorem C19_help_no_output : forall i f, plan NoSubcommand i f = OHelp /\ output_action NoSubcommand (plan NoSubcommand i f) = None.
+Proof. exact help_no_output. Qed.
+Theorem C19_unknown_subcommand : forall n o i f, n <> T "convert" -> plan (Subcommand n o) i f = OError EExitUsage.
+Proof. exact unknown_subcommand. Qed.
+Theorem C19_output_only_if_valid : forall a i f path w,
+  output_action a (plan a i f) = Some (path, w) ->
+  exists n o p, a = Subcommand n o /\ n = T "convert" /\ plan a i f = OPlan p /\ path = o_output o /\ w = p_writer p /\
+    get_file_type (o_itype o) (splitext (o_input o)) = Ok (reader_type (p_reader p)) /\
+    get_file_type (o_otype o) (splitext (o_output o)) = Ok (writer_type w) /\ writable (writer_type w) = true /\
+    sources_ok i f = true.
+Proof. exact output_only_if_valid. Qed.
+
+(* ---- configuration parsing accepts exactly the documented values.
+   Full statement (false of the faithful model, see Findings/C19.v):
+       forall k v, v <> JNull -> (accepts k v = true <-> documented k v = true).
+   Proved: the same, for the 16 keys other than colours and font stacks, on every value outside the executable
+   triggers of the three recorded findings (Spec/CliSpec.v trigger). *)
+Theorem C19_config_accepts_partial : forall k v,
+  table_key k = true -> v <> JNull -> trigger k v = false -> (accepts k v = true <-> documented k v = true).
+Proof. exact config_accepts. Qed.
+(* no trigger is involved for imsc_writer.time_format: the decoder is exact *)
+Theorem C19_config_accepts_time_format : forall v, v <> JNull -> (accepts KTimeFormat v = true <-> documented KTimeFormat v = true).
+Proof. exact acc_time_format. Qed.
+(* colours and font stacks, partial: non-strings are rejected; every TTML named colour, every #rrggbb/#rrggbbaa and
+   every single family name of two or more letters is documented and accepted.  Missing: rgb()/rgba() values and
+   multi-family font stacks (the regular-expression scanners of parse_color / parse_font_families against the
+   TTML2 grammar) — those are covered by the probe and correspondence runs only. *)
+Theorem C19_config_accepts_color_font_partial :
+  (forall k v, (k = KColor \/ k = KBgColor \/ k = KFontStack) -> v <> JNull -> (forall s, v <> JStr s) ->
+               accepts k v = false /\ documented k v = false) /\
+  (forall k s, (k = KColor \/ k = KBgColor) -> one_of s ttml_named_colors = true -> accepts k (JStr s) = true) /\
+  (forall k h, (k = KColor \/ k = KBgColor) -> forallb hexdigit h = true -> (length h = 6 \/ length h = 8)%nat ->
+               accepts k (JStr (35 :: h)) = true /\ documented k (JStr (35 :: h)) = true) /\
+  (forall s, forallb letter s = true -> (2 <= length s)%nat ->
+             accepts KFontStack (JStr s) = true /\ documented KFontStack (JStr s) = true).
+Proof. exact (conj acc_not_string (conj color_named_accepted (conj color_hex_accepted font_single_name))). Qed.
+
+(* ---- tie 1 (recompiled whenever the regenerated tables change): M's decoders equal the code on the fixed probe
+        set, S is departed from on it only inside recorded findings, defaults and tables are the code's *)
+Theorem C19_decoders_on_probe_set : forallb probe_ok gen_probes = true /\ forallb (fun p => negb (probe_class p =? 9)) gen_probes = true.
+Proof. exact (conj probes_agree probes_spec_ok). Qed.
+Theorem C19_defaults_are_the_codes :
+  default_scc = gen_default_scc /\ default_stl = gen_default_stl /\ default_imsc = gen_default_imsc /\
+  default_srt = gen_default_srt /\ default_vtt = gen_default_vtt /\ default_lcd = gen_default_lcd /\
+  default_general = gen_default_general.
+Proof. exact defaults_agree. Qed.
+
+(* ---- non-vacuity *)
+Definition ex_opts : options := Build_options (T "dir.d/My File.SCC") (T "out/o.dat") None (Some (T "Ttml")) [T "lcd"; T "nope"; T "lcd"].
+Definition ex_inline : json := JObj [(T "lcd", JObj [(T "safe_area", JInt 99)])].
+Definition ex_file : json :=
+  JObj [(T "general", JObj [(T "document_lang", JStr (T "es-419"))]); (T "lcd", JObj [(T "safe_area", JInt 5)]);
+        (T "imsc_writer", JObj [(T "fps", JStr (T "30000/1001")); (T "time_format", JStr (T "frames"))])].
+Example C19_example_plan :
+  plan (Subcommand (T "convert") ex_opts) (IGiven ex_inline) (FGiven ex_file) =
+  OPlan (Build_plan_t (RdScc None) (Some (T "es-419"))
+           [FLcd (Build_lcd_cfg 5 false None None); FLcd (Build_lcd_cfg 5 false None None)]
+           (WrTtml (Some (Build_imsc_cfg (Some TfFrames) (Some (30000, 1001))))) (Some 20) (Some true)).
+Proof. vm_compute. reflexivity. Qed.
+Example C19_example_errors :
+  plan (Subcommand (T "convert") ex_opts) (IGiven ex_inline) FAbsent = OError EValue /\        (* safe_area 99 *)
+  plan (Subcommand (T "convert") (Build_options (T "a.srt") (T "b.scc") None None [])) IAbsent FAbsent = OError EExitUnsupported /\
+  plan (Subcommand (T "convert") (Build_options (T "a.txt") (T "b.srt") None None [])) IAbsent FAbsent = OError EValue /\
+  plan (Subcommand (T "frobnicate") ex_opts) IAbsent FAbsent = OError EExitUsage.
+Proof. vm_compute. repeat split; reflexivity. Qed.
+Example C19_example_table :
+  trigger KSafeArea (JInt 31) = false /\ accepts KSafeArea (JInt 31) = false /\ accepts KSafeArea (JInt 30) = true /\
+  trigger KFps (JStr (T "30000/1001")) = false /\ accepts KFps (JStr (T "30000/1001")) = true /\
+  trigger KStartTc (JStr (T "10:00:00:00")) = false /\ trigger KTextFormatting (JBool false) = false.
+Proof. vm_compute. repeat split; reflexivity. Qed.
+
+Print Assumptions C19_types_iff.  Print Assumptions C19_types_unique.  Print Assumptions C19_types.
+Print Assumptions C19_unsupported_types.  Print Assumptions C19_precedence.  Print Assumptions C19_inline_alone.
+Print Assumptions C19_malformed_inline.  Print Assumptions C19_filters_order.  Print Assumptions C19_filters_configured.
+Print Assumptions C19_lang_override.  Print Assumptions C19_errors_no_output.  Print Assumptions C19_help_no_output.
+Print Assumptions C19_unknown_subcommand.  Print Assumptions C19_output_only_if_valid.
+Print Assumptions C19_config_accepts_partial.  Print Assumptions C19_config_accepts_time_format.
+Print Assumptions C19_config_accepts_color_font_partial.  Print Assumptions C19_decoders_on_probe_set.
+Print Assumptions C19_defaults_are_the_codes.
